@@ -198,8 +198,8 @@ for nd, tier in ():  # bn_div: contract, harness and job definition kept; the mo
 # ------------------------------------------------------------------ rung 2: recodings (plain, monolithic, bounded scalars)
 for key, full in (("naf", "bn_calc_naf"), ("jsf", "bn_calc_jsf"), ("combo", "bn_combo_column_get")):
     for bits, tier in ((8, "quick"), (16, "thorough")):
-        if key == "combo" and bits == 16:
-            continue
+        if (key == "combo" and bits == 16) or (key == "naf" and bits == 16):
+            continue  # naf at 16-bit scalars: > 1800 s
         k = bits + 4
         us = "harness.0:60,harness.1:60,harness.2:60,harness.3:60,bn_calc_naf.0:%d,bn_calc_naf.1:%d,bn_calc_jsf.0:%d,bn_calc_jsf.1:%d,bn_calc_jsf.2:%d,vf_small_bits.0:34,vf_small_val.0:6,bn_combo_column_get.0:12" % (k, k, k, k, k)
         job("r2.%s.w8.b%d" % (full, bits), "recode.c", cfg(8, True, bitlen=bits + 8, extra=["VF_FN_" + key, "VF_RC_BITS=%d" % bits]),
@@ -219,14 +219,14 @@ R3 = [
  ("mod_reduce", "bn_mod_reduce", ["bn_cmp", "bn_assign_init", "bn_sub_digit", "bn_mod", "bn_add_digit"], True),
 ]
 for key, full, repl, nonlinear in R3:
-    confs = [(8, 2, "thorough", 32)] if nonlinear else []
-    confs += [(8, 4, "quick" if not nonlinear else "thorough", 32 + 0)]
-    if not nonlinear:
-        confs += [(64, 4, "quick", 256), (64, 22, "thorough", 1408)]
+    # nonlinear specs (products / remainders of wide values): W = 8, 2 digits closes (kissat, 170-370 s);
+    # 4 digits does not (> 1200 s) and is not registered.  bn_mod_add at the shipped W = 64 x 22 digits
+    # (2880-bit spec vectors) did not finish in 1200 s either: not registered.
+    confs = [(8, 2, "thorough", 32)] if nonlinear else [(8, 4, "quick", 32), (64, 4, "quick", 256)]
     if key == "mod_sub":
         confs = [(8, 2, "quick", 16), (8, 4, "thorough", 32)]
     if key == "mod":
-        confs = [(8, 2, "quick", 16), (8, 4, "thorough", 32)]
+        confs = [(8, 2, "thorough", 16)]
     for W, nd, tier, _ in confs:
         extra = ["VF_FN_" + key]
         if nonlinear:
@@ -236,8 +236,8 @@ for key, full, repl, nonlinear in R3:
         job("r3.%s.w%d.n%d" % (full, W, nd), "bn3.c",
             cfg(W, True, bitlen=W * nd, extra=extra),
             enforce=[full], replace=repl, functions=[full],
-            route="bounded" if nonlinear else "finite",
-            bound=("W = %d, capacity %d digits; callees replaced by their contracts" % (W, nd)) if nonlinear else "",
+            route="bounded",
+            bound="W = %d, build with BN_MAX_DIGITS = %d (every capacity, digit count, stale digits and aliasing of that build); callees replaced by their contracts" % (W, nd),
             tier=tier, timeout=600, backend="kissat" if nonlinear else "sat",
             cbmc=["--unwind", str(nd + 2), "--unwindset", "__CPROVER_contracts_write_set_check_assigns_clause_inclusion.0:40,__CPROVER_contracts_write_set_check_frees_clause_inclusion.0:40", "--unwinding-assertions", "--object-bits", "10"])
 
@@ -246,7 +246,7 @@ CL = "vf_d_clz.0:10,vf_d_ctz.0:10,vf_d_popcount.0:10,__CPROVER_contracts_write_s
 def loopset(fn, n):
     return ",".join("%s.%d:%d" % (fn, k, n) for k in range(16))
 R3L = [
- ("mod_div", "bn_mod_div", ["bn_assign_init", "bn_mod_inv_bin", "bn_mod_mult"], "", "finite", ""),
+ ("mod_div", "bn_mod_div", ["bn_assign_init", "bn_mod_inv_bin", "bn_mod_mult"], "", "bounded", "W = 8, build with BN_MAX_DIGITS = 2; callees (incl. the unproved bn_mod_inv_bin contract) replaced by their contracts"),
 ]
 for key, full, repl, us, route, bound in R3L:
     W, nd = 8, 2
@@ -284,8 +284,8 @@ EXPLANATION = (
  "Rung 2 (r2.*): multiplicative layer, modular (callees replaced by their contracts), W = 8 and <= 4 digits: digit-array "
  "multiply-accumulate functions against the sum of per-digit products, bn_mult / bn_square / bn_mult_digit against the "
  "exact product (bn_div: contract written, not proved); NAF / JSF / comb column by executing the whole function for every scalar up to 8 (16) bits. "
- "Rung 3 (r3.*): bn_mod, bn_mod_add/sub/mult/mult_digit/square/reduce value contracts proved modularly (bn_mod_add at the shipped "
- "W=64 x 22-digit configuration too); bn_mod_div: return-code set, domain checks, error propagation, "
+ "Rung 3 (r3.*): bn_mod, bn_mod_add/sub/mult/mult_digit/square/reduce value contracts proved modularly (bn_mod_add/sub at "
+ "4 digits, W = 8 and 64; the ones whose specification contains products or remainders at W = 8, 2 digits); bn_mod_div: return-code set, domain checks, error propagation, "
  "well-formed result. Every harness ends in a reachability canary; failing obligations that were confirmed natively on the "
  "real code are listed in known_findings.d/C01.json with patches in proposed_fixes/bignum-*.diff; the ledger is generated from "
  "the tree that contains those patches.")
@@ -305,6 +305,7 @@ NOT_COVERED = [
  "intra-object overflow: cbmc's bounds check for a member array reached through a pointer is object-granular, so an index such as num[(size_t)-1] that stays inside the bn_t object is not flagged (bn_sub with both operands zero reads num[digits - 1] with digits == 0: value unused, not detected by any obligation, not confirmed by UBSan either)",
  "bn_div: the contract (contracts/bn_mul.h: EINVAL iff d == 0, exact quotient/remainder, all remainder forms) is NOT proved: the modular job (15 callees replaced by contracts, W = 8, 2 and 3 digits, kissat) did not finish in 35 min; its contract is nevertheless what the bn_mod / bn_mod_* proofs assume",
  "rung 2 is W = 8 only and <= 4 digits (bn_mult <= 3 digits); the digit-array multiply functions are proved against the sum of per-digit products, the closed product form used by their callers rests on the distributivity identity listed in those jobs' assumptions",
+ "rung 3 at larger configurations: bn_mod / bn_mod_mult / bn_mod_mult_digit / bn_mod_square / bn_mod_reduce at W = 8 x 4 digits and bn_mod_add at the shipped W = 64 x 22 digits (2880-bit spec vectors) did not finish in 1200 s and are not registered; bn_calc_naf with 16-bit scalars > 1800 s (8-bit scalars, windows 2..5, proved; bn_calc_jsf proved for all pairs of 16-bit scalars)",
  "bn_exp_digit, bn_digit_egcd, bn_mod_small, bn_mod_legendre: no contract",
  "rung 3 loop functions: bn_mod_inv_bin, bn_gcd, bn_gcd_bin, bn_sqrt1, bn_mod_sqrt have no proved contract (not attempted for lack of time; bn_mod_inv_bin's domain/return-code contract is only USED, as an assumption, by the bn_mod_div job); bn_mod_exp / bn_mod_exp_digit: safety contracts written (contracts/bn_mod.h) but the modular jobs did not get through in the time available (first attempt cbmc rc 6 / 1800 s timeout with a global unwind bound, second attempt stopped at the exponent loop's unwinding assertion) - not registered",
  "import/export digit-array level (bn_digits_import_*/export_*) unbounded safety jobs: not registered (the bn_t-level jobs execute those bodies for buffers <= 8..18 bytes); export hex at W=64 runs out of memory (12 GB) in symbolic execution",
